@@ -312,11 +312,15 @@ def classification(ctx):
 
     qs, impl = [], []
     for status in (None, 0, 200, 399, 400, 403, 404, 409, 429, 499, 500, 503):
-        for err in (None, {}, {"Code": "InvalidParameterValueException", "Message": "Invalid Checkpoint Token: x"},
-                    {"Code": "InvalidParameterValueException", "Message": "something else"},
-                    {"Code": "InvalidParameterValueException", "Message": None}, {"Code": "InvalidParameterValueException"},
-                    {"Code": "ResourceNotFoundException", "Message": "Invalid Checkpoint Token"},
-                    {"Code": None, "Message": "Invalid Checkpoint Token"}, {"Message": "m"}):
+        # messages around the prefix rule ("starts with"): the phrase exactly, as a prefix, elsewhere in the text, after a
+        # blank, in another case, cut short, empty (seeded C18-8: `in` instead of `startswith`)
+        msgs = ("Invalid Checkpoint Token: x", "Invalid Checkpoint Token", "something else",
+                "Bad request: Invalid Checkpoint Token", " Invalid Checkpoint Token", "invalid checkpoint token: x",
+                "Invalid Checkpoint Toke", "Invalid  Checkpoint Token", "", None)
+        errs = [None, {}, {"Code": "InvalidParameterValueException"}, {"Message": "m"}]
+        errs += [{"Code": c, "Message": m} for c in ("InvalidParameterValueException", "ResourceNotFoundException",
+                                                      "invalidparametervalueexception", None) for m in msgs]
+        for err in errs:
             for with_meta in (True, False):
                 class E(Exception):
                     pass
